@@ -12,7 +12,7 @@ Tuples ==
   {[cls |-> "csr.FieldPort.Signature", p |-> [w |-> w, signed |-> s, access |-> a]] :
        w \in {0, 1, 8}, s \in {0, 1}, a \in {"r", "w", "rw", "nc"}} \cup
   {[cls |-> "wishbone.Signature", p |-> [aw |-> a, dw |-> d, gran |-> g, feat |-> f]] :
-       a \in {0, 5}, d \in {8, 16, 32, 64}, g \in {8, 16, 32, 64}, f \in Feats} \cup
+       a \in {0, 4, 5, 6}, d \in {8, 16, 32, 64}, g \in {8, 16, 32, 64}, f \in Feats} \cup
   {[cls |-> "event.Source.Signature", p |-> [trigger |-> tr]] : tr \in {"level", "rise", "fall"}} \cup
   {[cls |-> "gpio.PinSignature", p |-> [none |-> 0]]}
 Valid(x) == /\ (x.cls = "wishbone.Signature" => x.p.gran <= x.p.dw)
